@@ -321,8 +321,10 @@ def subchecks(tier):
                 # a slice of the 3-group graphs (forests with a grandchild / two children), no streams
                 Sub("work_queue_3g", _work_queue(3, 2, 0, 300, 3), shards=2, weight=1)]
     return [Sub("end_to_end", _end_to_end(4000, 12), shards=16, weight=2),
-            # the (3, 2, 2) space has 1.68 M graphs: every 6th graph, every order (cap 2000)
-            Sub("work_queue", _work_queue(3, 2, 2, 2000, 6), shards=16, weight=2)]
+            # all 139 376 graphs with <= 3 groups, <= 2 tasks, <= 1 stream (cap 400 orders per graph) and every
+            # second of the 148 832 graphs with <= 2 groups, <= 2 tasks, <= 2 streams; both stop at the budget
+            Sub("work_queue", _work_queue(3, 2, 1, 400, 1), shards=16, weight=2),
+            Sub("work_queue_2s", _work_queue(2, 2, 2, 200, 2), shards=16, weight=1)]
 
 
 def replay(case):
